@@ -24,4 +24,46 @@ PROPS = {
             "trichotomy assumes int/uint->float conversions never produce NaN (FloatOps.ConvNoNaN)",
         ],
     },
+    "C12": {
+        "lean": ["UgoVerif.Props.C12"],
+        "gen": [],
+        "streams": ["modules"],
+        "required_theorems": ["store_functional", "store_stable", "cycle_rejected", "cycle_rejected_at", "reachable_compiled",
+                              "unknown_rejected", "unknown_rejected_at", "copy_fresh", "only_storemodule_writes_cache",
+                              "step_keeps_cache", "storemodule_writes_one", "prologue_grows_cache",
+                              "cache_nil_until_stored", "ghost_is_step", "C12_partial"],
+        "partial": [
+            "C12_partial (of def C12_full: every module is missed - its load/body started - at most once per run): proved is that the only writer of the module cache is STOREMODULE, that a non-nil entry has an executed STOREMODULE behind it (a hit needs an earlier store and yields the stored object) and that counters only grow; NOT proved, and false of the code, is 'at most one start': open findings C12:body-rerun-after-throw and C12:body-reentered-via-global",
+            "the link 'a body is entered only by the CALL that follows a LOADMODULE miss' rests on the shape LOADMODULE;JUMPFALSY;[NULL..];CALL;STOREMODULE emitted by compileImportExpr, which is checked by the lock-step stream, not proved from a compiler model",
+        ],
+        "trusted": [
+            "hand model Model/ModStore.lean (moduleStore, checkCyclicImports, store part of compileImportExpr) tied by request `ms` of stream `modules` (NumModules / error class and named module for every generated graph)",
+            "hand VM model VM/{Types,Base,Copy,Step,Run}.lean tied by the lock-step `vm` requests of stream `modules` (outcome, instruction count, H1 trace hash, final globals)",
+        ],
+        "assumptions": [
+            "a source module is abstracted to the list of its import expressions in compile order; ExtImporter (file importers) is outside the model",
+            "Copy() of values outside the modelled kinds (SyncMap, embedder objects that are not Copiers) is outside the claim; captured-variable boxes of closures are shared by Copy() on purpose",
+            "Go slice capacity / map iteration order are not modelled (DESIGN section 3)",
+        ],
+    },
+    "C14": {
+        "lean": ["UgoVerif.Props.C14"],
+        "gen": ["VmFields.lean"],
+        "streams": ["invoke"],
+        "required_theorems": ["acquire_complete", "reads_are_fields", "release_zeroes", "pool_fresh", "pool_acquire_eq_new",
+                              "pool_release_inv", "acquire_fields"],
+        "partial": [
+            "C14_full (def): for every function, accepted argument list, pool history and caller state, Invoke through a child VM returns the value/error and leaves the heap, globals and module cache that the in-script call leaves (frame_shift). Proved: acquire_complete (regenerated field lists), pool_fresh / pool_acquire_eq_new (a pooled child equals a new one whatever it did before), acquire_fields; NOT proved: initLocals_eq_callbind (stated over the two binding specifications initLocalsSpec / callbindSpec, checked on instances by evaluation), that the monadic initLocals / callCompiled compute these specifications, and the simulation between the child's frame 0 and the parent's frame k (frame_shift) - both are exercised by the lock-step `inv` requests only",
+        ],
+        "trusted": [
+            "hand model VM/Invoke.lean (Invoker, _acquire, _release, vmSyncPool, shared module-cache slice header) tied by the lock-step `inv` requests of stream `invoke`",
+            "goextract vmfields.go: field lists of struct VM, assignments of _acquire / Run prologue, reads of Run's call graph, literals of _release / child creation",
+        ],
+        "assumptions": [
+            "zeroOk fields (stack, frames, mu): contents above sp / frameIndex are dead (C07 step_live); a zero mutex is unlocked",
+            "Go-side calls with too few or too many arguments are lenient and not compared (property text)",
+            "non-compiled callees run Go code (Invoker.invokeObject) and are outside the model",
+            "a module cache shorter than NumModules but not empty (root that ran an older, smaller Bytecode) depends on slice capacity: answered `unsupported` by the model",
+        ],
+    },
 }
